@@ -756,3 +756,281 @@ def h_c17(tier, seed, hints):
 @replayer("C17")
 def r_c17(acc, case):
     _c17_case(acc, case)
+
+
+# =============================================================================================== C20
+C20_OPTS = {
+    "announce": ["http://t1/announce", "http://t2/announce"],
+    "web-seed": ["http://w1/x", "http://w2/y"],
+    "http-seed": ["http://h1/z"],
+    "private": True,
+    "source": "SRC",
+    "comment": "a comment",
+    "piece-length": "15",
+    "align": True,
+}
+C20_KW = {"announce": "announce", "web-seed": "url_list", "http-seed": "httpseeds", "private": "private", "source": "source",
+          "comment": "comment", "piece-length": "piece_length", "meta-version": "meta_version", "out": "outfile", "align": "align"}
+C20_FIELD = {"announce": ("top", "announce"), "web-seed": ("top", "url-list"), "http-seed": ("top", "httpseeds"),
+             "private": ("info", "private"), "source": ("info", "source"), "comment": ("info", "comment"),
+             "piece-length": ("info", "piece length")}
+
+
+def _c20_run(route, d, payload, opts, version, order):
+    """create through one route; returns decoded metafile (bytes keys) without creation date"""
+    from torrentfile.cli import execute
+    out = os.path.join(d, f"out_{route}_{order}.torrent")
+    if route == "keyword":
+        from torrentfile.torrent import TorrentFile, TorrentAssembler
+        kw = {C20_KW[k]: v for k, v in opts.items()}
+        kw.update(path=payload, outfile=out, meta_version=str(version), progress=0)
+        with quiet():
+            t = TorrentFile(**kw) if version == 1 else TorrentAssembler(**kw)
+            t.write()
+    elif route == "flags":
+        flags = []
+        for k, v in opts.items():
+            if v is True:
+                flags.append([f"--{k}"])
+            elif isinstance(v, list):
+                flags.append([f"--{k}"] + v)
+            else:
+                flags.append([f"--{k}", v])
+        flags.append(["--meta-version", str(version)])
+        flags.append(["-o", out])
+        flags.append(["--prog", "0"])
+        flat = [x for f in flags for x in f]
+        if order == "first":
+            argv = ["create", payload] + flat
+        elif order == "last":
+            # list-valued flags placed right before the positional content path
+            listflags = [f for f in flags if len(f) > 2]
+            others = [f for f in flags if len(f) <= 2]
+            argv = ["create"] + [x for f in others + listflags for x in f] + [payload]
+        else:
+            half = len(flags) // 2
+            argv = ["create"] + [x for f in flags[:half] for x in f if True]
+            # a list flag must not directly precede the path in the middle position unless it is the documented recovery
+            argv += [payload] + [x for f in flags[half:] for x in f]
+            if len(flags[half - 1]) > 2:
+                argv = ["create"] + [x for f in flags[:half] for x in f] + ["--prog", "0", payload] + [x for f in flags[half:] for x in f]
+        with quiet():
+            execute(argv)
+    else:
+        ini = os.path.join(d, f"cfg_{order}.ini")
+        lines = ["[config]"]
+        for k, v in opts.items():
+            if v is True:
+                lines.append(f"{k} = true")
+            elif isinstance(v, list):
+                lines.append(f"{k} =")
+                lines += [f"    {x}" for x in v]
+            else:
+                lines.append(f"{k} = {v}")
+        lines.append(f"meta-version = {version}")
+        lines.append(f"out = {out}")
+        with open(ini, "w", encoding="utf-8") as fh:
+            fh.write("\n".join(lines) + "\n")
+        with quiet():
+            execute(["create", payload, "--config", "--config-path", ini, "--prog", "0"])
+    if not os.path.isfile(out):
+        return None
+    m = ref.bdecode(open(out, "rb").read(), strict=False)
+    m.pop(b"creation date", None)
+    return m
+
+
+def _c20_case(acc, case):
+    opts, version = case["opts"], case["version"]
+    with tempdir() as d:
+        name, tree = small_trees(0)[1]
+        payload = ref.write_tree(d, name, tree)
+        os.chdir(d)
+        results = {}
+        for route, order in (("keyword", "kw"), ("flags", "first"), ("flags", "last"), ("flags", "middle"), ("config", "ini")):
+            try:
+                results[(route, order)] = _c20_run(route, d, payload, opts, version, order)
+            except BaseException as e:      # noqa: BLE001
+                results[(route, order)] = f"raised {type(e).__name__}: {e}"
+        base = results[("keyword", "kw")]
+        if not isinstance(base, dict):
+            acc.fail("C20:keyword:failed", case, base, "metafile")
+            return
+        # documented field of every option (keyword route)
+        for k, v in opts.items():
+            if k in C20_FIELD:
+                lvl, key = C20_FIELD[k]
+                got = (base[b"info"] if lvl == "info" else base).get(key.encode())
+                exp = 1 if v is True else ([x.encode() for x in v] if isinstance(v, list) else v.encode())
+                if k == "announce":
+                    exp = v[0].encode()
+                if k == "piece-length":
+                    exp = 2 ** int(v)
+                if got != exp:
+                    acc.fail(f"C20:keyword:field:{k}", case, f"{key} = {got!r}", exp)
+        for (route, order), m in results.items():
+            if route == "keyword":
+                continue
+            if m is None:
+                acc.fail(f"C20:{route}:{order}:no-output-at-out:{'+'.join(sorted(opts))}", case, "no metafile at the requested output path", "metafile at out")
+            elif not isinstance(m, dict):
+                acc.fail(f"C20:{route}:{order}:failed", case, m, "metafile")
+            elif m != base:
+                diff = sorted(k.decode() for k in set(m) | set(base) if m.get(k) != base.get(k))
+                idiff = sorted(k.decode() for k in set(m.get(b"info", {})) | set(base[b"info"]) if m.get(b"info", {}).get(k) != base[b"info"].get(k))
+                acc.fail(f"C20:{route}:{order}:differs:{','.join(diff)}:{','.join(idiff)}", case,
+                         f"top-level keys {diff}, info keys {idiff} differ from the keyword route", "identical metafiles")
+
+
+@harness("C20")
+def h_c20(tier, seed, hints):
+    acc = Acc("C20", "the same option set supplied as keyword arguments, as command-line flags (content path first / in the middle / "
+              "after the list-valued flags) and as a configuration file; the five metafiles must be identical apart from the "
+              "creation date and every option must land in its documented field; distinct = (option subset, version)",
+              "all single options, all pairs, the full set; versions 1,2,3")
+    keys = list(C20_OPTS)
+    subsets = [[k] for k in keys] + [list(p) for p in itertools.combinations(keys, 2)] + [keys, []]
+    if tier == "quick":
+        subsets = [[k] for k in keys] + [list(p) for p in itertools.combinations(keys, 2)][::3] + [keys, []]
+    for version in (1, 2, 3):
+        for sub in subsets:
+            if "align" in sub and version != 1:
+                continue
+            case = {"prop": "C20", "opts": {k: C20_OPTS[k] for k in sub}, "version": version}
+            _c20_case(acc, case)
+            acc.case((version, tuple(sub)), case if len(sub) == 2 else None)
+    return acc.result()
+
+
+@replayer("C20")
+def r_c20(acc, case):
+    _c20_case(acc, case)
+
+
+# =============================================================================================== C11
+NASTY = ["plain", "with space", "a&b=c", "100%+x#frag", "ünï cødé ✓", "semi;colon?q=1", "trailing/", "  "]
+
+
+def _c11_case(acc, case):
+    from urllib.parse import parse_qsl
+    from torrentfile.commands import magnet
+    with tempdir() as d:
+        nm = case["name"]
+        tree = small_trees(0)[1][1] if case["dir"] else small_trees(0)[0][1]
+        version = case["version"]
+        info = ref.ref_info(nm, tree, 16384, version)
+        meta = {"info": info}
+        if version != 1:
+            meta["piece layers"] = ref.ref_piece_layers(tree, 16384)
+        tr = case["trackers"]
+        if tr is not None:
+            if case["tiers"]:
+                meta["announce"] = tr[0]
+                meta["announce-list"] = [tr[:1], tr[1:]] if len(tr) > 1 else [tr]
+            else:
+                meta["announce"] = tr[0]
+        if case["ws"] is not None:
+            meta["url-list"] = case["ws"]
+        for k, v in case.get("extra", {}).items():
+            meta["info" if False else k] = v
+        if case.get("extra_info"):
+            info.update(case["extra_info"])
+        data = ref.bencode(meta, sort_keys=not case.get("unsorted"))
+        if case.get("unsorted"):
+            # arbitrary key order as another encoder might emit it (reverse order at top level and in info)
+            m2 = {k: meta[k] for k in reversed(list(meta))}
+            m2["info"] = {k: info[k] for k in reversed(list(info))}
+            data = ref.bencode(m2, sort_keys=False)
+        mf = os.path.join(d, "m.torrent")
+        with open(mf, "wb") as fh:
+            fh.write(data)
+        if case.get("edit"):
+            from torrentfile.edit import edit_torrent
+            with quiet():
+                edit_torrent(mf, dict(case["edit"]))
+            data = open(mf, "rb").read()
+            cur = ref.to_text(ref.bdecode(data, strict=False))
+            tr = None
+            if "announce-list" in cur:
+                tr = [u for tier in cur["announce-list"] for u in tier]
+            elif "announce" in cur:
+                tr = [cur["announce"]]
+            case_ws = cur.get("url-list")
+        else:
+            case_ws = case["ws"]
+        span = ref.info_span(data)
+        for req in case["requests"]:
+            try:
+                with quiet():
+                    uri = magnet(mf, version=req)
+            except BaseException as e:      # noqa: BLE001
+                acc.fail("C11:magnet-raised", dict(case, requests=[req]), f"{type(e).__name__}: {e}")
+                continue
+            if not uri.startswith("magnet:?"):
+                acc.fail("C11:not-a-magnet-uri", dict(case, requests=[req]), uri[:200])
+                continue
+            params = parse_qsl(uri[len("magnet:?"):], keep_blank_values=True)
+            xts = [v for k, v in params if k == "xt"]
+            want = []
+            has_v1, has_v2 = version in (1, 3), version in (2, 3)
+            if has_v1 and (not has_v2 or req in (0, 1, 3)):
+                want.append("urn:btih:" + hashlib.sha1(span).hexdigest())
+            if has_v2 and req != 1:
+                want.append("urn:btmh:1220" + hashlib.sha256(span).hexdigest())
+            c1 = dict(case, requests=[req])
+            if xts != want:
+                acc.fail(f"C11:xt:v{version}:req{req}", c1, xts, want)
+            dn = [v for k, v in params if k == "dn"]
+            if dn != [nm]:
+                acc.fail("C11:dn", c1, dn, [nm])
+            trs = [v for k, v in params if k == "tr"]
+            if trs != (tr or []):
+                acc.fail("C11:tr", c1, trs, tr or [])
+            wss = [v for k, v in params if k == "ws"]
+            if wss != (case_ws or []):
+                acc.fail("C11:ws", c1, wss, case_ws or [])
+            other = [k for k, v in params if k not in ("xt", "dn", "tr", "ws")]
+            if other:
+                acc.fail("C11:stray-parameters", c1, other, [])
+
+
+@harness("C11")
+def h_c11(tier, seed, hints):
+    acc = Acc("C11", "magnet URIs of reference-encoded metafiles (v1 / v2 / hybrid, single file and directory, sorted and arbitrary key "
+              "order, extra keys, edited here) parsed with urllib.parse: xt against SHA-1 / SHA-256 of the exact info span of the file, "
+              "dn / tr / ws against name and URL lists; distinct = (version, request, name, trackers, web seeds, key order)",
+              "8 hostile names, tracker lists of 0..3 URLs with/without tiers, web-seed lists 0..2, versions x requests")
+    urls = ["http://t.example/announce", "udp://open.example.net", "http://x/y?a=1&b=2 3+4#f", "http://ü.example/ä"]
+    n = 0
+    for version in (1, 2, 3):
+        reqs = [0] if version != 3 else [0, 1, 2, 3]
+        if version == 1:
+            reqs = [0, 1]
+        if version == 2:
+            reqs = [0, 2]
+        for ni, nm in enumerate(NASTY):
+            if nm.endswith("/") or nm.strip() == "":
+                continue
+            for ti, (tr, tiers) in enumerate([(None, False), (urls[:1], False), (urls[:1], True), (urls[:3], True), (urls[1:4], True)]):
+                for wi, ws in enumerate([None, urls[2:3], urls[:2] + ["http://mirror.example/files"]]):
+                    if tier == "quick" and (ni + ti + wi) % 3 and not (ni == 0 or ti == 3):
+                        continue
+                    for unsorted in (False, True):
+                        case = {"prop": "C11", "version": version, "name": nm, "dir": bool((ni + ti) % 2), "trackers": tr, "tiers": tiers,
+                                "ws": ws, "requests": reqs, "unsorted": unsorted,
+                                "extra_info": ({"zz-extra": 5, "aa-first": "x"} if unsorted else None)}
+                        _c11_case(acc, case)
+                        acc.case((version, ni, ti, wi, unsorted), case if n % 40 == 0 else None)
+                        n += 1
+        # edited here
+        for edit in ({"comment": "added later"}, {"announce": ["http://new/a", "http://new/b"], "source": "S"}, {"url-list": ["http://w/z"]}):
+            case = {"prop": "C11", "version": version, "name": "edited name", "dir": True, "trackers": urls[:2], "tiers": True, "ws": None,
+                    "requests": reqs, "unsorted": False, "edit": edit}
+            _c11_case(acc, case)
+            acc.case((version, "edit", json.dumps(edit)))
+    return acc.result()
+
+
+@replayer("C11")
+def r_c11(acc, case):
+    _c11_case(acc, case)
